@@ -106,6 +106,12 @@ Fixpoint check_stmt (ret : ty) (inloop : bool) (G : tenv) (s : stmt) {struct s} 
         | TBool => tbind (check_stmt ret true ([] :: G) body) (fun _ => TOk G)
         | _ => TErr ENonBoolCond
         end)
+  | SFor x t lo hi body =>
+      tbind (check_expr G lo) (fun tl =>
+      tbind (check_expr G hi) (fun th =>
+        if ty_eqb tl (TInt t) && ty_eqb th (TInt t)
+        then tbind (check_stmt ret true ([(x, TInt t)] :: G) body) (fun _ => TOk G)
+        else TErr EMixedOperands))
   | SBreak | SContinue => if inloop then TOk G else TErr EBreakOutsideLoop
   | SReturn None => match ret with TVoid => TOk G | _ => TErr EMissingReturnValue end
   | SReturn (Some e) =>
